@@ -778,16 +778,18 @@ var MergeFunc = function.New(&function.Spec{
 		first := cty.NilType
 		matching := true
 		attrsKnown := true
+		// any dynamic args mean we can't compute a type, but the other
+		// arguments must still be maps or objects
+		for _, arg := range args {
+			ty := arg.Type()
+			if !ty.Equals(cty.DynamicPseudoType) && !ty.IsMapType() && !ty.IsObjectType() {
+				return cty.NilType, fmt.Errorf("arguments must be maps or objects, got %#v", ty.FriendlyName())
+			}
+		}
 		for i, arg := range args {
 			ty := arg.Type()
-			// any dynamic args mean we can't compute a type
 			if ty.Equals(cty.DynamicPseudoType) {
 				return cty.DynamicPseudoType, nil
-			}
-
-			// check for invalid arguments
-			if !ty.IsMapType() && !ty.IsObjectType() {
-				return cty.NilType, fmt.Errorf("arguments must be maps or objects, got %#v", ty.FriendlyName())
 			}
 			// marks are attached to values, so ignore while determining type
 			arg, _ = arg.Unmark()
